@@ -309,6 +309,9 @@ func runC07(c *Ctx, r *Report) {
 	r.Rule("C01.R7", "(shared) control objects are never stored as values (a control object in a container panics in Cmp)")
 	c.checkControlObjects(r, "C01.R7")
 
+	r.Rule("C07.R13", "a state's context is never nil: every function that builds a State field by field stores Context, and every store to State.Context writes the result of context.Background/WithCancel/WithTimeout/..., of Term.Resume, another state's Context, or a value tested != nil on that edge")
+	c.checkContextNeverNil(r, "C07.R13")
+
 	// shared C08.R8
 	r.Rule("C08.R8", "(shared) a parsed tree is evaluated only after both parser verdicts (errors, continuation request) were found clear: a tree with missing nodes is a nil dereference in the evaluator")
 	c.checkParserVerdicts(r, "C08.R8")
